@@ -48,6 +48,12 @@ try:
     shutil.copytree(seed, os.path.join(wt, "seed", name), dirs_exist_ok=True)
     if os.path.isdir(os.path.join(seed, "sim")):  # helper tree shared by a seeding agent's demos (expected at seed/sim)
         shutil.copytree(os.path.join(seed, "sim"), os.path.join(wt, "seed", "sim"), dirs_exist_ok=True)
+    def shared():
+        sh_dir = os.path.join(seed, "_shared")  # helper trees a seeding agent shared between its demos (expected at seed/<name>)
+        if os.path.isdir(sh_dir):
+            for n in os.listdir(sh_dir):
+                shutil.copytree(os.path.join(sh_dir, n), os.path.join(wt, "seed", n), dirs_exist_ok=True)
+    shared()
     def relocate():
         # demonstration scripts may name the agent's own worktree: point them at this one
         for dp, _, fns in os.walk(os.path.join(wt, "seed")):
@@ -75,6 +81,7 @@ try:
         shutil.copytree(seed, os.path.join(wt, "seed", name), dirs_exist_ok=True)
         if os.path.isdir(os.path.join(seed, "sim")):
             shutil.copytree(os.path.join(seed, "sim"), os.path.join(wt, "seed", "sim"), dirs_exist_ok=True)
+        shared()
         relocate()
     rc, out = sh("git apply seed/%s/patch.diff" % name, cwd=wt)
     res["patch_applies"] = rc == 0
